@@ -90,6 +90,16 @@ class C20(Check):
             ops = [{"op": "sendfast", "i": 0, "n": 5, "o": outs[0]}, {"op": "sendfast", "i": 1, "n": 4, "o": outs[1]}, {"op": "pump", "o": outs[2]},
                    {"op": "sendfast", "i": 2, "n": 2, "o": 0}, {"op": "pump", "o": 0}]
             cases.append({"part": "A", "ops": ops})
+        # A, one socket call per pass: the IOWorker offers its buffer to the socket ONCE per writable event / send_fast; the
+        # outcomes in "more" are what a second, third ... call in the same pass would get — the code as it is never asks, a
+        # "drain" loop would (and would mishandle a short write followed by EAGAIN or an error in the same pass)
+        for o1 in (1, 2, 5):
+            for more in ([3], [4], [1, 3], [2, 4], [5, 3], [1, 1, 3]):
+                for o2 in (0, 1, 3):
+                    cases.append({"part": "A", "ops": [{"op": "send", "i": 0, "n": 10}, {"op": "pump", "o": o1, "more": more}, {"op": "send", "i": 1, "n": 7},
+                                                      {"op": "pump", "o": o2, "more": more}, {"op": "send", "i": 2, "n": 5}, {"op": "pump", "o": 0}, {"op": "pump", "o": 0}]})
+                    cases.append({"part": "A", "ops": [{"op": "sendfast", "i": 0, "n": 10, "o": o1, "more": more}, {"op": "pump", "o": o2, "more": more},
+                                                      {"op": "sendfast", "i": 1, "n": 7, "o": o2, "more": more}, {"op": "pump", "o": 0}, {"op": "pump", "o": 0}]})
         # B: all sequences of length <= 4 over a small alphabet
         alpha = [{"op": "send", "i": 0, "n": 5, "o": 0}, {"op": "send", "i": 1, "n": 5, "o": 2}, {"op": "send", "i": 2, "n": 3, "o": 3}, {"op": "send", "i": 3, "n": 3, "o": 4},
                  {"op": "flush", "outs": [0, 0, 0]}, {"op": "flush", "outs": [1]}, {"op": "flush", "outs": [0, 4]}, {"op": "envenq"}, {"op": "envdone"}]
@@ -112,6 +122,8 @@ class C20(Check):
                     if r < 0.3: ops.append({"op": "send", "i": k, "n": rng.choice([1, 2, 7, rng.randint(1, 40)])})
                     elif r < 0.55: ops.append({"op": "sendfast", "i": k, "n": rng.choice([1, 2, 7, rng.randint(1, 40)]), "o": self._rout(rng)})
                     else: ops.append({"op": "pump", "o": self._rout(rng)})
+                    if ops[-1]["op"] != "send" and rng.random() < 0.3:          # what further calls in the same pass would get
+                        ops[-1]["more"] = [self._rout(rng) for _ in range(rng.randint(1, 3))]
                 yield {"part": "A", "ops": ops + [{"op": "pump", "o": 0}] * 2}
             else:
                 ops = []
@@ -185,7 +197,7 @@ class C20(Check):
                 if op["op"] == "send":
                     w.send(data(op["i"], op["n"]))
                 elif op["op"] == "sendfast":
-                    sock.script = [self._o(op["o"])]
+                    sock.script = [self._o(op["o"])] + [self._o(o) for o in op.get("more", [])]
                     w.send_fast(data(op["i"], op["n"]))
                     sock.script = []
                 else:
@@ -195,7 +207,7 @@ class C20(Check):
                     else:
                         sel = g.send(([], [], []))
                     rl, wl, xl = sel._args[0], sel._args[1], sel._args[2]
-                    sock.script = [self._o(op["o"])]
+                    sock.script = [self._o(op["o"])] + [self._o(o) for o in op.get("more", [])]
                     sel = g.send(([], [w] if w in wl else [], []))
                     sock.script = []
         except Exception as e:
